@@ -784,6 +784,39 @@ fn graphs(c: &mut Cat, seed: u64, n_graphs: u64) {
             c.rep.violation("alloc|graph::process|steady_state_alternating_wide_and_narrow_sinks", format!("Graph: a Sum node with {} incoming edges and one with 2 on the same graph, each rendered before: 4 more alternations made {} allocations / {} reallocations / {} frees", w + 1, d.allocs, d.reallocs, d.deallocs), format!("entry=graphW2:{}", w));
         }
     }
+    // warmed up on one thread, rendered on another (graph and processor are Send with
+    // BoxedNodeSend): whatever "has processed a graph of that size once" leaves behind must travel
+    // with the processor, not stay with the thread
+    for w in [3usize, 40, 700] {
+        use dasp_graph::BoxedNodeSend;
+        let mut g: Graph<NodeData<BoxedNodeSend>, ()> = Graph::with_capacity(w + 3, 2 * w + 4);
+        let ids: Vec<NodeIndex> = (0..w + 2).map(|_| g.add_node(NodeData::new1(BoxedNodeSend::new(Sum)))).collect();
+        for i in 0..w {
+            g.add_edge(ids[i], ids[w], ());
+        }
+        g.add_edge(ids[w], ids[w + 1], ());
+        let out = ids[w + 1];
+        let mut p = Processor::<Graph<NodeData<BoxedNodeSend>, ()>>::with_capacity(w + 2);
+        p.process(&mut g, out);
+        p.process(&mut g, out);
+        let d = std::thread::spawn(move || {
+            let _ = alloc::snap(); // first touch of the thread-local counters
+            let before = alloc::snap();
+            for _ in 0..4 {
+                p.process(&mut g, out);
+            }
+            let d = alloc::snap().since(&before);
+            drop((g, p));
+            d
+        })
+        .join()
+        .expect("render thread");
+        c.rep.eval(4);
+        if !d.is_zero_traffic() {
+            c.rep.violation("alloc|graph::process|after_moving_processor_and_graph_to_another_thread", format!("Graph<BoxedNodeSend> with fan-in {}: processed twice on the constructing thread, then 4 calls on another thread made {} allocations / {} reallocations / {} frees", w, d.allocs, d.reallocs, d.deallocs), format!("entry=graphT:{}", w));
+        }
+        c.rep.nontrivial(vmon::hash_combine(0x7468, w as u64));
+    }
     let mut rng = Rng::derive(seed, &[77]);
     for gi in 0..n_graphs {
         let n = 1 + rng.usize_below(if gi % 10 == 0 { 64 } else { 12 });
